@@ -164,6 +164,25 @@ def corpus(ctx):
     one_case(ctx, s1, s2, "corpus.1d-gap")
 
 
+def same_bytes_corpus(ctx):
+    """the same 36 values laid out as (36,), (6, 6), (4, 9), (2, 3, 6), (1, 36), (36, 1) and, byte-identically, as uint16 [1, 0, 257, ...] next to
+    its uint8 view: consecutive calls in one process whose arguments have equal raw buffers and different meaning"""
+    rng = ctx.rng
+    base_r = np.zeros(36, np.uint8)
+    base_p = np.zeros(36, np.uint8)
+    base_r[[3, 4, 9, 10, 15, 16, 20, 21]] = 1
+    base_p[[4, 5, 10, 11, 16, 22, 23, 28]] = 1
+    shapes = [(36,), (6, 6), (4, 9), (2, 3, 6), (1, 36), (36, 1), (9, 4), (3, 12)]
+    rng.shuffle(shapes)
+    for sh in shapes:
+        ctx.count("same_buffer_other_shape")
+        one_case(ctx, base_r.reshape(sh), base_p.reshape(sh), "corpus.same-bytes")
+    wide_r = np.array([1, 0, 257, 0, 0, 1, 1, 0], np.uint16)
+    wide_p = np.array([0, 1, 257, 257, 0, 0, 1, 0], np.uint16)
+    one_case(ctx, wide_r, wide_p, "corpus.same-bytes")
+    one_case(ctx, wide_r.view(np.uint8), wide_p.view(np.uint8), "corpus.same-bytes")
+
+
 def very_far(ctx, n):
     """single voxels tens of thousands of voxels apart (squared distances beyond 2^31)"""
     rng = ctx.rng
@@ -216,6 +235,7 @@ def pipeline_cases(ctx, n):
 
 def run(ctx):
     corpus(ctx)
+    same_bytes_corpus(ctx)
     very_far(ctx, ctx.scale(2, 8))
     pipeline_cases(ctx, ctx.scale(25, 250))
     run_cases(ctx, ctx.scale(600, 6000), "rand")
@@ -252,6 +272,9 @@ def replay(ctx, rec):
         got = sorted(res["ungrouped"]["list_ASSD"]) if isinstance(res, dict) else res
         if isinstance(got, str) or len(got) != len(want) or any(not close(a, b) for a, b in zip(got, want)):
             ctx.violation(f"per-instance ASSD through the evaluator is {got}, definition gives {want}", i, key={"kind": "assd-embedding"})
+        return
+    if i.get("src") == "corpus.same-bytes":
+        same_bytes_corpus(ctx)          # the failing call needs the calls before it (same process, same buffers)
         return
     one_case(ctx, np.array(i["ref"], dtype=np.uint8).reshape(i["shape"]), np.array(i["pred"], dtype=np.uint8).reshape(i["shape"]),
              "replay", sel=i.get("sel"))
